@@ -390,3 +390,71 @@ func VerifC19_FileNamesSymbolic() {
 	}
 	rt.Reach("filenames-symbolic-end")
 }
+
+// ---- histories of AddVersion: one entry per version, at most one current
+// release (the one named by the latest call that set it), flags accumulate;
+// then the selection follows the documented order on that state ----
+
+func VerifC19_AddVersionHistory() {
+	reg := c19Registry("/s/updates")
+	res := reg.newResource("a/b.zip")
+	steps := 3
+	if rt.Thorough() {
+		steps = 4
+	}
+	n := rt.Len("calls", 1, steps)
+	current := -1 // rank of the version named by the latest current-release call
+	avail := map[int]bool{}
+	added := map[int]bool{}
+	for s := 0; s < n; s++ {
+		tag := "add" + string(rune('0'+s))
+		rank := 1 + rt.Choice(tag+".version", 3)
+		a, cur := rt.Bool(tag+".available"), rt.Bool(tag+".current")
+		rt.Assert(res.AddVersion(c19Numbers[rank], a, cur, false) == nil, "addversion/ok")
+		added[rank] = true
+		if a {
+			avail[rank] = true
+		}
+		if cur {
+			current = rank
+		}
+		// state after every call
+		seen := map[string]bool{}
+		flagged := 0
+		for _, rv := range res.Versions {
+			rt.Assert(!seen[rv.VersionNumber], "addversion/one-entry-per-version")
+			seen[rv.VersionNumber] = true
+			if rv.CurrentRelease {
+				flagged++
+				rt.Assert(current >= 0 && rv.VersionNumber == c19Numbers[current], "addversion/current-release-is-the-latest-one-named")
+			}
+			for r := 1; r <= 3; r++ {
+				if rv.VersionNumber == c19Numbers[r] {
+					rt.Assert(rv.Available == avail[r], "addversion/available-flag-accumulates")
+				}
+			}
+		}
+		want := 0
+		if current >= 0 {
+			want = 1
+		}
+		rt.Assert(flagged == want, "addversion/exactly-one-current-release")
+		cnt := 0
+		for r := 1; r <= 3; r++ {
+			if added[r] {
+				cnt++
+			}
+		}
+		rt.Assert(len(res.Versions) == cnt, "addversion/version-count")
+	}
+	// the selection on the resulting state: the current release if it is selectable
+	res.selectVersion()
+	if current >= 0 && res.SelectedVersion != nil {
+		for _, rv := range res.Versions {
+			if rv.CurrentRelease && rv.isSelectable() && !reg.DevMode {
+				rt.Assert(res.SelectedVersion == rv, "addversion/selectable-current-release-is-selected")
+			}
+		}
+	}
+	rt.Reach("addversion-end")
+}
